@@ -269,7 +269,7 @@ pub fn models(tier: Tier, seed: u64) -> Vec<Box<dyn DynModel>> {
 }
 
 pub fn describe(tier: Tier, r: &mut Report) {
-    r.rule = "signer-set machine: initial states = honest multi-signature of n signers (Basic and ProofOfPossession) over one message; one action edits the accumulated key (omit / replace / double count signer i for every i, add a foreign signer, reorder) or the message (other, truncate, extend, bit flips); the accumulation refusal lattice is the sequence machine over all scheme sequences of length <= 3".into();
+    r.rule = "signer-set machine: initial states = honest multi-signature of n signers (Basic and ProofOfPossession) over one message; one action edits the accumulated key (omit / replace / double count signer i for every i, add a foreign signer, reorder) or the message (other, truncate, extend, bit flips); the accumulation refusal lattice is the sequence machine over all sequences of length <= 3 of (scheme label, honest point | identity point), through from_signatures and TryFrom<&[Signature]>".into();
     r.deviation_bound_completed = "1 edit; sequences of length 3".into();
     r.alphabet.insert("n".into(), serde_json::json!(if tier.thorough() { "every n in 2..=64" } else { "n in {2,3,4,5,8,16}" }));
     r.assumptions = vec!["signer keys are distinct hash-derived keys".into()];
